@@ -278,6 +278,14 @@ func runC09(run *Run, replay string) Spec {
 					} `json:"input"`
 				} `json:"violation"`
 			}
+			var raw struct {
+				Violation struct {
+					Input json.RawMessage `json:"input"`
+				} `json:"violation"`
+			}
+			if json.Unmarshal(b, &raw) == nil && c09MinifyReplay(run, layouts["L1"], raw.Violation.Input) {
+				return spec
+			}
 			if json.Unmarshal(b, &f) == nil && f.Violation.Input.History != nil {
 				for k := 0; k < 8; k++ {
 					c09Check(run, f.Violation.Input.History, rand.New(rand.NewSource(int64(k))))
